@@ -151,10 +151,22 @@ OPEN_ROOTS = {
                                       "  var get = f.call({H});", "  f = nil;", "  churn({n});", "  var l = get();", "  return {P};", "}}",
                                       'print(("ev", {g}, r{g}()));'],
 }
-# Not generated: a captured variable whose scope is left by an *exception* (unwinding truncates the stack without closing
-# captured variables, K-unwind-capture). The closure then reads whatever reuses the slot - the same wrong value under every
-# collection schedule, so it is a scoping defect (C06, not claimed), not a GC-safety one; generating it only made a third of
-# the reference runs end early.
+# A captured variable whose scope is left by an *exception*: unwinding must close the captured variable (give the closure
+# its own copy) before the stack is cut back; otherwise the closure keeps pointing at a slot above the stack top, which the
+# collector does not trace. The pads keep that slot from being overwritten before the closure is used.
+PADS = " ".join("var p%d = %d;" % (i, i) for i in range(14))
+OPEN_ROOTS.update({
+    "capture_in_scope_left_by_exception": ["fn r{g}() {{", "  var get = nil;",
+                                           "  try {{ " + PADS + " var l = {H}; get = || {{ return l; }}; throw 1; }} catch e {{ churn(1); }}",
+                                           "  churn({n});", "  var l = get();", "  return {P};", "}}", 'print(("ev", {g}, r{g}()));'],
+    # ... or by a `return` that leaves the try block through its finally block
+    "capture_in_try_left_by_return": ["var get{g} = nil;",
+                                      "fn t{g}() {{ try {{ " + PADS + " var l = {H}; get{g} = || {{ return l; }}; return 1; }} finally {{ churn({n}); }} }}",
+                                      "fn r{g}() {{", "  t{g}();", "  churn(1);", "  var l = get{g}();", "  return {P};", "}}", 'print(("ev", {g}, r{g}()));'],
+    "capture_in_callee_left_by_exception": ["var get{g} = nil;", "fn t{g}() {{ " + PADS + " var l = {H}; get{g} = || {{ return l; }}; throw [1]; }}",
+                                            "fn r{g}() {{", "  try {{ t{g}(); }} catch e {{ churn(1); }}", "  churn({n});", "  var l = get{g}();", "  return {P};", "}}",
+                                            'print(("ev", {g}, r{g}()));'],
+})
 ROOTS.update(OPEN_ROOTS)
 ROOTS["capture_on_finished_fiber"] = ["fn r{g}() {{", "  var f = Fiber.new(|x| {{ var l = x; var pad = [1]; return || {{ return l; }}; }});",
                                       "  var get = f.call({H});", "  f = nil;", "  churn({n});", "  var l = get();", "  return {P};", "}}",
@@ -359,7 +371,7 @@ class C01:
     LEVEL = "exploration"
     TIMEOUT = 40.0
     RULE = ("case = generated heap-shape program: 3-9 gadgets, each either a retention chain root -> e1..e4 -> target (19 edge kinds "
-            "x 18 target kinds x 20 root kinds; the chain is the only path to the target; allocation churn between building and "
+            "x 18 target kinds x 23 root kinds; the chain is the only path to the target; allocation churn between building and "
             "reading it back) or one of 41 operations that make the interpreter hold fresh unreferenced objects mid-operation "
             "(10 of them failing, so that the error object is allocated meanwhile); every case is executed under never-collect, "
             "collect-at-every-allocation and a PRNG collection tape (rate 1/2, 1/8 or 1/64), all with quarantine. non-trivial = the "
